@@ -315,6 +315,17 @@ func CheckC16(c *Ctx) (*Outcome, error) {
 	fe, err := c.RunCases(nEnum, func(i int) ([]*History, error) {
 		rng := c.Rng("c16-corrupt-every-output", i)
 		hs := CorruptEveryOutput(rng, LayoutOpts{UserPkgs: true, Guarded: true, CustomTags: i%2 == 1}, 3)
+		if i%3 == 2 || (c.Tier != "thorough" && i == 1) {
+			// the same enumeration through a customised CLI (cli.Run with enum transformers)
+			for _, h := range hs {
+				for k := range h.Ops {
+					if h.Ops[k].Gen != nil && !h.Ops[k].Gen.Orig {
+						h.Ops[k].Gen.CustomCLI = true
+					}
+				}
+			}
+			c.Stats.Add("c16.custom_cli_histories", int64(len(hs)))
+		}
 		c.Stats.Add("c16.prior_state_enumeration_histories", int64(len(hs)))
 		return hs, nil
 	}, JudgeC16, note)
